@@ -42,7 +42,7 @@ Deliver(fr, k, rec) ==
   THEN [f1 EXCEPT !.bvals = Append(@, rec), !.bq = Tail(@)]
   ELSE LET s == P[fr.k[1]].body[fr.pc] IN
        IF rec.out = "V" \/ s.catch
-       THEN [f1 EXCEPT !.subs = Append(@, rec.val), !.pc = @ + 1]
+       THEN [f1 EXCEPT !.subs = Append(@, Seen(s, rec)), !.pc = @ + 1]
        ELSE [f1 EXCEPT !.ab = rec.val, !.pc = @ + 1]
 
 Init ==
@@ -106,7 +106,7 @@ Step ==
         THEN \* the batch is complete: call_batch returns the list or raises the first exception
              LET s    == body[fr.pc]
                  errs == {j \in 1..Len(fr.bvals) : fr.bvals[j].out # "V"}
-                 vals == [j \in 1..Len(fr.bvals) |-> fr.bvals[j].val]
+                 vals == [j \in 1..Len(fr.bvals) |-> Seen(s, fr.bvals[j])]
                  base == [fr EXCEPT !.inbatch = FALSE, !.bvals = <<>>, !.pc = @ + 1]
              IN /\ stack' = SetTop(
                      IF s.rf /\ errs # {}
